@@ -57,6 +57,9 @@ func (p *Program) VerifyContract(ct *Contract, tier string) *Unit {
 		u.Passes = pass
 		c.resetPass()
 		c.nopanic = ct.NoPanic && (activeProperty == "" || activeProperty == "C07")
+		c.lockCheck = ct.LockOnly || activeProperty == "C25"
+		c.lockOnly = ct.LockOnly
+		c.nguard = 0
 		c.tier = tier
 		func() {
 			defer func() {
@@ -77,6 +80,16 @@ func (p *Program) VerifyContract(ct *Contract, tier string) *Unit {
 		}
 	}
 	u.Obls = c.obls
+	if ct.LockOnly {
+		// a lock-discipline sweep unit: only "the guard is held" obligations and lock preconditions of callees count
+		var keep []*Obligation
+		for _, o := range c.obls {
+			if o.Kind == "guard" || (o.Kind == "pre" && strings.Contains(o.Src, "held(")) {
+				keep = append(keep, o)
+			}
+		}
+		u.Obls = keep
+	}
 	u.Inputs = c.inputs
 	if c.inputs != nil {
 		for _, o := range u.Obls {
